@@ -18,6 +18,10 @@ func NewMemDisk(numBlocks uint64) MemDisk {
 }
 
 func (d MemDisk) ReadTo(a uint64, buf Block) {
+	if uint64(len(buf)) != BlockSize {
+		// same contract as FileDisk.ReadTo
+		panic("buffer is not block-sized")
+	}
 	d.l.RLock()
 	defer d.l.RUnlock()
 	if a >= uint64(len(d.blocks)) {
